@@ -771,6 +771,9 @@ def check_c14(tier: str) -> int:
             ck.count()
             ck.note_case((gen, i, mutate, outage))
             dist[f"at{gen}_{'mutated' if mutate else 'unchanged'}_outage{outage // TICK}s"] += 1
+            if rng.random() < 0.3:
+                rig.burn_packet_ids(rng.choice([254, 255]))      # the refresh requests straddle the wrap of the packet counter
+                dist[f"at{gen}_refresh_at_counter_wrap"] += 1
             n_before = len(rig.console.requests)
             rig.net.accept = outage <= 1
             cur = rig.net.current()
